@@ -45,24 +45,26 @@ var allLinks = []int{linkEthernet, linkRaw, linkIPv4, linkSLL, linkSLL2, linkNul
 var allFormats = []int{fmtPcapLE, fmtPcapBE, fmtPcapNsLE, fmtPcapNsBE, fmtPcapngLE, fmtPcapngBE}
 
 type params struct {
-	MaxLen0     int   `json:"dev0_payload_max"`           // deviation free set: payload bound
-	MaxSegs0    int   `json:"segments_per_direction_max"` //
-	MatrixLen   int   `json:"matrix_payload_max"`         // payload bound of the link x format matrix
-	TwoLen      int   `json:"twoconn_payload_max"`        // payload bound per direction with two connections
-	TwoAllFlags bool  `json:"twoconn_independent_handshake_fin_flags"`
-	Dev1Len     int   `json:"dev1_payload_max"`         // payload bound of the single deviation bases
-	Dev1TwoLen  int   `json:"dev1_twoconn_payload_max"` // payload bound of two-connection single deviation bases (0: none)
-	Dev2Len     int   `json:"dev2_payload_max"`         // payload bound of the double deviation bases (0: none)
-	WrapLen     int   `json:"seqwrap_payload_max"`      // bases (deviation free and single deviation) with ISNs that wrap around 2^32
-	FragGrid    int   `json:"fraggrid_segment_payload_max"`
-	Big         []int `json:"big_payload_pairs"`
+	MaxLen0      int   `json:"dev0_payload_max"`           // deviation free set: payload bound
+	MaxSegs0     int   `json:"segments_per_direction_max"` //
+	MatrixLen    int   `json:"matrix_payload_max"`         // payload bound of the link x format matrix
+	TwoLen       int   `json:"twoconn_payload_max"`        // payload bound per direction with two connections
+	TwoAllFlags  bool  `json:"twoconn_independent_handshake_fin_flags"`
+	Dev1Len      int   `json:"dev1_payload_max"`         // payload bound of the single deviation bases
+	Dev1TwoLen   int   `json:"dev1_twoconn_payload_max"` // payload bound of two-connection single deviation bases (0: none)
+	Dev2Len      int   `json:"dev2_payload_max"`         // payload bound of the double deviation bases (0: none)
+	WrapLen      int   `json:"seqwrap_payload_max"`      // bases (deviation free and single deviation) with ISNs that wrap around 2^32
+	FragGrid     int   `json:"fraggrid_segment_payload_max"`
+	MatrixDevLen int   `json:"matrix_dev_payload_max"` // single deviation bases under every format / link
+	MatrixFrag   int   `json:"matrix_fraggrid_payload_max"`
+	Big          []int `json:"big_payload_pairs"`
 }
 
 func tierParams(r *core.Run) params {
 	if r.Thorough() {
-		return params{MaxLen0: 6, MaxSegs0: 3, MatrixLen: 4, TwoLen: 2, TwoAllFlags: true, Dev1Len: 4, Dev1TwoLen: 1, Dev2Len: 2, WrapLen: 3, FragGrid: 44, Big: []int{4096, 65536}}
+		return params{MaxLen0: 6, MaxSegs0: 3, MatrixLen: 4, TwoLen: 2, TwoAllFlags: true, Dev1Len: 4, Dev1TwoLen: 1, Dev2Len: 2, WrapLen: 3, FragGrid: 44, MatrixDevLen: 3, MatrixFrag: 28, Big: []int{4096, 65536}}
 	}
-	return params{MaxLen0: 6, MaxSegs0: 3, MatrixLen: 3, TwoLen: 2, TwoAllFlags: false, Dev1Len: 3, Dev1TwoLen: 0, Dev2Len: 0, WrapLen: 2, FragGrid: 28, Big: []int{4096}}
+	return params{MaxLen0: 6, MaxSegs0: 3, MatrixLen: 3, TwoLen: 2, TwoAllFlags: false, Dev1Len: 3, Dev1TwoLen: 0, Dev2Len: 0, WrapLen: 2, FragGrid: 28, MatrixDevLen: 2, MatrixFrag: 20, Big: []int{4096}}
 }
 
 type explorer struct {
@@ -165,6 +167,7 @@ func (e *explorer) generate(p params) {
 	secDev0, secMatrix, secTwo := "dev0", "matrix", "twoconn"
 	secDev1, secDev1Two, secDev2 := "dev1", "dev1-twoconn", "dev2"
 	secFrag, secBig, secWrap := "fraggrid", "big", "seqwrap"
+	secMatrixDev := "matrix-dev"
 
 	if e.wants(secDev0) {
 		oneConnBases(p.MaxLen0, p.MaxSegs0, false, func(specs []ConnSpec, ps []Pkt) {
@@ -222,6 +225,31 @@ func (e *explorer) generate(p params) {
 	if e.wants(secFrag) {
 		fragGrid(p.FragGrid, func(specs []ConnSpec, ps []Pkt, kind string) {
 			e.add(&secFrag, ps, specs, linkEthernet, fmtPcapLE, kind)
+		})
+	}
+	// deviations and fragments under every capture format and link type (the packet
+	// bytes reach the flow decoder through a different reader per format/link): every
+	// format with ethernet, every link type with pcap LE
+	if e.wants(secMatrixDev) {
+		each := func(fn func(l, f int)) {
+			for _, f := range allFormats {
+				if f != fmtPcapLE {
+					fn(linkEthernet, f)
+				}
+			}
+			for _, l := range allLinks {
+				if l != linkEthernet {
+					fn(l, fmtPcapLE)
+				}
+			}
+		}
+		oneConnBases(p.MatrixDevLen, p.MaxSegs0, false, func(specs []ConnSpec, ps []Pkt) {
+			deviations(ps, specs, func(d devHist) {
+				each(func(l, f int) { e.add(&secMatrixDev, d.ps, specs, l, f, d.kind) })
+			})
+		})
+		fragGrid(p.MatrixFrag, func(specs []ConnSpec, ps []Pkt, kind string) {
+			each(func(l, f int) { e.add(&secMatrixDev, ps, specs, l, f, kind) })
 		})
 	}
 	if e.wants(secBig) {
